@@ -57,7 +57,23 @@ fn pair<C: CI>(ctx: &mut Ctx, x: &[u8], y: &[u8], kind: &str, p1: usize, p2: usi
     let name = C::NAME;
     let want = x == y;
     let sx = mk::<C>(x);
-    let sy = mk::<C>(y);
+    // the right operand's HISTORY varies: freshly built, or a longer value shortened in place (truncate /
+    // remove of the suffix), which leaves non-zero dead bits beyond its length in the last word and spare capacity
+    let mode = if exact_fit_on() { 0 } else { (p1 + p2 + x.len()) % 3 };
+    let sy = if mode == 0 {
+        mk::<C>(y)
+    } else {
+        let mut j = y.to_vec();
+        j.extend(rand_codes(&mut ctx.rng, a, 1 + (p2 + y.len()) % 37));
+        let mut s = mk::<C>(&j);
+        if mode == 1 {
+            s.truncate(y.len());
+        } else {
+            s.remove(y.len()..);
+        }
+        s
+    };
+    let kind = &format!("{kind}/rhs-{}", ["fresh", "truncated-in-place", "suffix-removed-in-place"][mode]);
     let px = Padded::<C>::new(&mut ctx.rng, p1, x, 2);
     let py = Padded::<C>::new(&mut ctx.rng, p2, y, 2);
     let ax: &SeqSlice<C> = px.slice();
